@@ -131,7 +131,7 @@ impl ExcHandler {
     //@  ensures r == (self.finally_ip == self.catch_ip)
     //@end
 }
-//@struct file=yarel/src/object.rs name=ObjFiber keepfields=stack,frames,exc_handlers,return_value,pending_exception,return_ip,return_handler_count,return_frame_count,error_ip map "Stack<Value, STACK_MAX>" => "StackS" map "*const u8" => "usize"
+//@struct file=yarel/src/object.rs name=ObjFiber keepfields=stack,frames,exc_handlers,return_value,pending_exception,return_ip,return_handler_count,return_frame_count,pending_frame_count,error_ip map "Stack<Value, STACK_MAX>" => "StackS" map "*const u8" => "usize"
 
 impl ObjFiber {
     // Every installed handler refers to heights that still exist, and inner handlers were installed at heights not
@@ -158,7 +158,7 @@ impl ObjFiber {
     //@  ensures old(self).exc_handlers@.len() == 0 ==> r is None && final(self).exc_handlers@ == old(self).exc_handlers@
     //@  ensures old(self).exc_handlers@.len() > 0 ==> r == Some(old(self).exc_handlers@.last()) && final(self).exc_handlers@ == old(self).exc_handlers@.drop_last()
     //@  ensures final(self).stack == old(self).stack, final(self).frames == old(self).frames, final(self).handlers_ok()
-    //@  ensures final(self).return_ip == old(self).return_ip, final(self).return_value == old(self).return_value, final(self).error_ip == old(self).error_ip, final(self).pending_exception == old(self).pending_exception, final(self).return_handler_count == old(self).return_handler_count
+    //@  ensures final(self).return_ip == old(self).return_ip, final(self).return_value == old(self).return_value, final(self).error_ip == old(self).error_ip, final(self).pending_exception == old(self).pending_exception, final(self).return_handler_count == old(self).return_handler_count && final(self).return_frame_count == old(self).return_frame_count && final(self).pending_frame_count == old(self).pending_frame_count
     //@end
 
     //@fn file=yarel/src/object.rs path=ObjFiber::take_return_data ret=r
@@ -167,7 +167,7 @@ impl ObjFiber {
     //@  ensures old(self).return_ip is Some ==> r == Some((old(self).return_value, old(self).return_ip->0)) && final(self).return_ip is None
     //@  ensures old(self).return_ip is None ==> r is None && final(self).return_value == old(self).return_value && final(self).return_ip is None
     //@  ensures final(self).stack == old(self).stack, final(self).frames == old(self).frames, final(self).exc_handlers == old(self).exc_handlers
-    //@  ensures final(self).pending_exception == old(self).pending_exception, final(self).error_ip == old(self).error_ip, final(self).return_handler_count == old(self).return_handler_count
+    //@  ensures final(self).pending_exception == old(self).pending_exception, final(self).error_ip == old(self).error_ip, final(self).return_handler_count == old(self).return_handler_count && final(self).return_frame_count == old(self).return_frame_count && final(self).pending_frame_count == old(self).pending_frame_count
     //@end
 
     // The failure address handed to the trace builder must lie in the code of the frame it is stored into: it is turned
@@ -196,7 +196,7 @@ impl ObjFiber {
             && final(f).slot_base == f.slot_base && final(f).closure == f.closure,
             final(self).stack == old(self).stack, final(self).exc_handlers == old(self).exc_handlers,
             final(self).return_ip == old(self).return_ip, final(self).return_value == old(self).return_value,
-            final(self).error_ip == old(self).error_ip, final(self).pending_exception == old(self).pending_exception, final(self).return_handler_count == old(self).return_handler_count,
+            final(self).error_ip == old(self).error_ip, final(self).pending_exception == old(self).pending_exception, final(self).return_handler_count == old(self).return_handler_count && final(self).return_frame_count == old(self).return_frame_count && final(self).pending_frame_count == old(self).pending_frame_count,
     { unimplemented!() }
 }
 
@@ -251,13 +251,13 @@ impl Vm {
     //@  requires old(self).fib.stack.view.len() < STACK_MAX
     //@  ensures final(self).fib.stack.view == old(self).fib.stack.view.push(value), final(self).fib.frames == old(self).fib.frames, final(self).fib.exc_handlers == old(self).fib.exc_handlers
     //@  ensures final(self).ip == old(self).ip, final(self).handling_exception == old(self).handling_exception
-    //@  ensures final(self).fib.return_ip == old(self).fib.return_ip, final(self).fib.return_value == old(self).fib.return_value, final(self).fib.error_ip == old(self).fib.error_ip, final(self).fib.pending_exception == old(self).fib.pending_exception, final(self).fib.return_handler_count == old(self).fib.return_handler_count
+    //@  ensures final(self).fib.return_ip == old(self).fib.return_ip, final(self).fib.return_value == old(self).fib.return_value, final(self).fib.error_ip == old(self).fib.error_ip, final(self).fib.pending_exception == old(self).fib.pending_exception, final(self).fib.return_handler_count == old(self).fib.return_handler_count && final(self).fib.return_frame_count == old(self).fib.return_frame_count && final(self).fib.pending_frame_count == old(self).fib.pending_frame_count
     //@end
     //@fn file=yarel/src/vm.rs path=Vm::pop ret=r
     //@  requires old(self).fib.stack.view.len() > 0
     //@  ensures r == old(self).fib.stack.view.last(), final(self).fib.stack.view == old(self).fib.stack.view.drop_last(), final(self).fib.frames == old(self).fib.frames, final(self).fib.exc_handlers == old(self).fib.exc_handlers
     //@  ensures final(self).ip == old(self).ip, final(self).handling_exception == old(self).handling_exception
-    //@  ensures final(self).fib.return_ip == old(self).fib.return_ip, final(self).fib.return_value == old(self).fib.return_value, final(self).fib.error_ip == old(self).fib.error_ip, final(self).fib.pending_exception == old(self).fib.pending_exception, final(self).fib.return_handler_count == old(self).fib.return_handler_count
+    //@  ensures final(self).fib.return_ip == old(self).fib.return_ip, final(self).fib.return_value == old(self).fib.return_value, final(self).fib.error_ip == old(self).fib.error_ip, final(self).fib.pending_exception == old(self).fib.pending_exception, final(self).fib.return_handler_count == old(self).fib.return_handler_count && final(self).fib.return_frame_count == old(self).fib.return_frame_count && final(self).fib.pending_frame_count == old(self).fib.pending_frame_count
     //@end
 
     // the remaining operand-stack helpers every handler unit uses by contract (items, classes, hmap, fiberx, …)
@@ -268,13 +268,13 @@ impl Vm {
     //@  requires depth < old(self).fib.stack.view.len()
     //@  ensures @poke_overwrites_exactly_the_slot_at_that_depth final(self).fib.stack.view == old(self).fib.stack.view.update(old(self).fib.stack.view.len() - 1 - depth, value), final(self).code == old(self).code, final(self).fib.frames == old(self).fib.frames, final(self).fib.exc_handlers == old(self).fib.exc_handlers
     //@  ensures final(self).ip == old(self).ip, final(self).handling_exception == old(self).handling_exception
-    //@  ensures final(self).fib.return_ip == old(self).fib.return_ip, final(self).fib.return_value == old(self).fib.return_value, final(self).fib.error_ip == old(self).fib.error_ip, final(self).fib.pending_exception == old(self).fib.pending_exception, final(self).fib.return_handler_count == old(self).fib.return_handler_count
+    //@  ensures final(self).fib.return_ip == old(self).fib.return_ip, final(self).fib.return_value == old(self).fib.return_value, final(self).fib.error_ip == old(self).fib.error_ip, final(self).fib.pending_exception == old(self).fib.pending_exception, final(self).fib.return_handler_count == old(self).fib.return_handler_count && final(self).fib.return_frame_count == old(self).fib.return_frame_count && final(self).fib.pending_frame_count == old(self).fib.pending_frame_count
     //@end
     //@fn file=yarel/src/vm.rs path=Vm::discard props=C02,C08
     //@  requires num <= old(self).fib.stack.view.len()
     //@  ensures @discard_drops_exactly_the_topmost_slots final(self).fib.stack.view == old(self).fib.stack.view.take(old(self).fib.stack.view.len() - num), final(self).code == old(self).code, final(self).fib.frames == old(self).fib.frames, final(self).fib.exc_handlers == old(self).fib.exc_handlers
     //@  ensures final(self).ip == old(self).ip, final(self).handling_exception == old(self).handling_exception
-    //@  ensures final(self).fib.return_ip == old(self).fib.return_ip, final(self).fib.return_value == old(self).fib.return_value, final(self).fib.error_ip == old(self).fib.error_ip, final(self).fib.pending_exception == old(self).fib.pending_exception, final(self).fib.return_handler_count == old(self).fib.return_handler_count
+    //@  ensures final(self).fib.return_ip == old(self).fib.return_ip, final(self).fib.return_value == old(self).fib.return_value, final(self).fib.error_ip == old(self).fib.error_ip, final(self).fib.pending_exception == old(self).fib.pending_exception, final(self).fib.return_handler_count == old(self).fib.return_handler_count && final(self).fib.return_frame_count == old(self).fib.return_frame_count && final(self).fib.pending_frame_count == old(self).fib.pending_frame_count
     //@end
 
     // PushExcHandler: the record notes where the catch code and the finally code start (relative operands) and the
@@ -311,6 +311,7 @@ impl Vm {
     //@  ensures old(self).fib.exc_handlers@.len() > 0 ==> final(self).fib.exc_handlers@ == old(self).fib.exc_handlers@.drop_last()
     //@  ensures @catch_block_receives_the_exception_on_top_of_the_handlers_slots (old(self).fib.exc_handlers@.len() > 0 && old(self).fib.exc_handlers@.last().finally_ip != old(self).fib.exc_handlers@.last().catch_ip) ==> final(self).fib.stack.view == old(self).fib.stack.view.take(old(self).fib.exc_handlers@.last().init_stack_size as int).push(old(self).fib.stack.view.last())
     //@  ensures @exception_waits_in_the_fiber_while_the_finally_block_runs (old(self).fib.exc_handlers@.len() > 0 && old(self).fib.exc_handlers@.last().finally_ip == old(self).fib.exc_handlers@.last().catch_ip) ==> final(self).fib.pending_exception == old(self).fib.stack.view.last()
+    //@  ensures @a_waiting_exception_remembers_the_frame_whose_finally_block_it_waits_in (r is Ok && final(self).handling_exception) ==> final(self).fib.pending_frame_count == old(self).fib.exc_handlers@.last().frame_count
     //@  ensures @exception_leaving_a_finally_block_cancels_its_parked_return (old(self).fib.exc_handlers@.len() > 0 && old(self).fib.exc_handlers@.len() - 1 < old(self).fib.return_handler_count) ==> final(self).fib.return_ip is None
     //@  ensures @exception_caught_inside_a_finally_block_keeps_the_parked_return (old(self).fib.exc_handlers@.len() > 0 && old(self).fib.exc_handlers@.len() - 1 >= old(self).fib.return_handler_count) ==> final(self).fib.return_ip == old(self).fib.return_ip && final(self).fib.return_value == old(self).fib.return_value
     //@  ensures @finally_block_is_entered_at_the_height_of_the_normal_path (old(self).fib.exc_handlers@.len() > 0 && old(self).fib.exc_handlers@.last().finally_ip == old(self).fib.exc_handlers@.last().catch_ip) ==> final(self).fib.stack.view == old(self).fib.stack.view.take(old(self).fib.exc_handlers@.last().init_stack_size as int)
@@ -391,7 +392,7 @@ impl Vm {
             (native.manages_stack && r is Err) ==> arg_count < old(self).fib.stack.view.len() ==> (final(self).fib.stack.view.len() >= old(self).fib.stack.view.len() - arg_count && final(self).fib.stack.view.len() <= old(self).fib.stack.view.len()
                 && final(self).fib.stack.view.take(old(self).fib.stack.view.len() - arg_count) == old(self).fib.stack.view.take(old(self).fib.stack.view.len() - arg_count)
                 && final(self).fib.frames == old(self).fib.frames && final(self).fib.exc_handlers == old(self).fib.exc_handlers && final(self).ip == old(self).ip && final(self).handling_exception == old(self).handling_exception && final(self).code == old(self).code
-                && final(self).fib.return_ip == old(self).fib.return_ip && final(self).fib.return_value == old(self).fib.return_value && final(self).fib.return_handler_count == old(self).fib.return_handler_count && final(self).fib.pending_exception == old(self).fib.pending_exception),
+                && final(self).fib.return_ip == old(self).fib.return_ip && final(self).fib.return_value == old(self).fib.return_value && final(self).fib.return_handler_count == old(self).fib.return_handler_count && final(self).fib.return_frame_count == old(self).fib.return_frame_count && final(self).fib.pending_frame_count == old(self).fib.pending_frame_count && final(self).fib.pending_exception == old(self).fib.pending_exception),
     { unimplemented!() }
 
     //@fn file=yarel/src/vm.rs path=Vm::call_native ret=r props=C08,C17,C02,C09
